@@ -65,14 +65,20 @@ if in_repo or all_checks:
 else:
     with ThreadPoolExecutor(2) as ex:
         outs = list(ex.map(run_one, names))
-lines = ["# Seeded changes vs checks", "", f"tier={tier}; mode={'applied to /repo and undone' if in_repo else 'scratch worktree + VERIF_REPO'}", "",
+allouts = []
+for n in sorted(os.listdir(f"{V}/seeded")):
+    rp = f"{V}/seeded/{n}/result.json"
+    if os.path.isfile(rp):
+        allouts.append(json.load(open(rp)))
+lines = ["# Seeded changes vs checks", "", "Each row: one change kept under seeded/<name>/ (patch.diff, demo.py, meta.json), applied to a scratch copy of the repository,",
+         "and the quick checks run against it (result.json holds the details).", "",
          "| seeded change | property | caught by its property's check | other checks that also fire | signatures (first) |", "|---|---|---|---|---|"]
-for o in outs:
+for o in allouts:
     r = o.get("results", {})
     tgt = r.get(o["property"], {})
     others = [c for c, v in r.items() if c != o["property"] and v["exit"] == 1]
-    lines.append(f"| {o['name']} | {o['property']} | {'yes' if tgt.get('exit') == 1 else 'NO (exit %s)' % tgt.get('exit')} | {' '.join(others) or '-'} | {'; '.join(tgt.get('signatures', [])[:2])} |")
-    print(lines[-1])
-# merge with previous rows for names not run this time
-path = f"{V}/seeded/RESULTS.md"
-open(path, "w").write("\n".join(lines) + "\n")
+    row = f"| {o['name']} | {o['property']} | {'yes' if tgt.get('exit') == 1 else 'NO (exit %s)' % tgt.get('exit')} | {' '.join(others) or '-'} | {'; '.join(tgt.get('signatures', [])[:2])} |"
+    lines.append(row)
+    if o["name"] in names:
+        print(row)
+open(f"{V}/seeded/RESULTS.md", "w").write("\n".join(lines) + "\n")
